@@ -105,7 +105,7 @@ class Sem(TL.Eval):
             return ("flagval", sem[1])
         if sem and sem[0] == "seq":
             self.seq(sem[1])
-            return ("seqresult",)
+            return ("seqresult", TL.seq_arity(sem[1]))
         return super().abstract(o)
 
     def fold(self, f):
